@@ -25,6 +25,10 @@ from vtools.ref.grammar import RefInvalid, RefParser, RefSyntaxError
 
 def ch_setup() -> None:
     hcommon.install_text_models()
+    if P.get("mode") == "roundtrip":
+        from vtools import chpatches
+
+        chpatches.install_concrete_float()
 
 
 def ref_run(q: str, signatures=None):
